@@ -127,7 +127,7 @@ def gen_worker(arg):
             triv = ob.kind != 'cover' and z3.is_true(ob.goal) and not ob.hyps
             obs.append({'name': ob.name, 'kind': ob.kind, 'label': ob.label, 'func': ob.func, 'line': ob.line,
                         'goal_str': str(ob.goal)[:300] if ob.goal is not None else '', 'n_hyps': len(ob.hyps), 'trivial': triv,
-                        'smt2': None if triv else solve.ob_to_smt2(ob.hyps, ob.goal)})
+                        'smt2': None if triv else solve.ob_to_smt2(ob.hyps, ob.goal), 'focus': getattr(ob, 'using', None)})
         return {'info': info, 'obs': obs, 'assumed': sorted(eng.assumed_used)}
     except Exception:
         return {'crash': traceback.format_exc()[-1200:]}
@@ -227,14 +227,14 @@ class Checker:
             if ob.trivial:
                 self.results[i] = {'status': 'proved', 'backend': 'trivial', 'secs': 0.0, 'n_inst': 0, 'model': None}
                 continue
-            items.append((i, ob.smt2, ob.kind == 'cover', timeout))
+            items.append((i, ob.smt2, ob.kind == 'cover', timeout, getattr(ob, 'focus', None)))
         workers = min(16, max(1, len(items)))
         with ProcessPoolExecutor(max_workers=workers) as ex:
             for name, res in ex.map(solve.work, items, chunksize=1):
                 self.results[name] = res
         # solver noise must never become a verdict: anything undecided is retried with a 4x budget on few workers
         # (solver noise can only be suspected where the function text is the one the baseline proof was made on)
-        retry = [(i, smt, cov, timeout * 4) for (i, smt, cov, _) in items if self.results[i]['status'] in ('unknown', 'error')
+        retry = [(i, smt, cov, timeout * 4, foc) for (i, smt, cov, _, foc) in items if self.results[i]['status'] in ('unknown', 'error')
                  and not self.function_changed(self.obs[i].func)]
         # (only a handful of undecided obligations is solver noise; dozens mean the tree or a contract is broken: report, do not grind)
         # (and when some obligation definitely failed, the run reports a violation whatever the undecided ones turn out to be)
